@@ -236,7 +236,7 @@ theorem unmarshalOne_basic (le : Bool) (fds : Fds) (fuel : Nat) (c : Basic) (v :
     simp only [Option.some.injEq] at he; subst he
     obtain ⟨h1, h2⟩ := uString_at le data pre s rest off hd hp h.2
     simp only [fromSpec] at hv
-    simp only [unmarshalOne, Basic.code, List.head?_cons, udisp_s, h1, h2]
+    simp only [unmarshalOne, Basic.code, List.head?_cons, udisp_s, h1, h2, uframe_string]
     cases hdec : utf8Decode s with
     | none => simp [hdec] at hv
     | some cs =>
@@ -251,7 +251,7 @@ theorem unmarshalOne_basic (le : Bool) (fds : Fds) (fuel : Nat) (c : Basic) (v :
     simp only [Option.some.injEq] at he; subst he
     obtain ⟨h1, h2⟩ := uString_at le data pre s rest off hd hp h.2
     simp only [fromSpec] at hv
-    simp only [unmarshalOne, Basic.code, List.head?_cons, udisp_o, h1, h2]
+    simp only [unmarshalOne, Basic.code, List.head?_cons, udisp_o, h1, h2, uframe_string]
     cases hdec : utf8Decode s with
     | none => simp [hdec] at hv
     | some cs =>
@@ -266,7 +266,7 @@ theorem unmarshalOne_basic (le : Bool) (fds : Fds) (fuel : Nat) (c : Basic) (v :
     simp only [Option.some.injEq] at he; subst he
     obtain ⟨h1, h2⟩ := uSignature_at le data pre s rest off hd hp h.2
     simp only [fromSpec] at hv
-    simp only [unmarshalOne, Basic.code, List.head?_cons, udisp_g, uSignature, h1, h2]
+    simp only [unmarshalOne, Basic.code, List.head?_cons, udisp_g, uSignature, h1, h2, uframe_signature]
     cases hdec : asciiDecode s with
     | none => simp [hdec] at hv
     | some cs =>
